@@ -42,6 +42,7 @@ struct _thpool {
     pthread_cond_t notify;
     m_list_t *threads;              /* Always used behind a mutex */
     m_queue_t *tasks;               /* Always used behind a mutex */
+    uint8_t alive;                  /* Threads that still use the pool. Always used behind a mutex once they run */
     atomic_uint running_tasks;
     m_thpool_flags flags;           /* Nobody writes this but us during thpool_new. No need to use an atomic */
 };
@@ -86,6 +87,11 @@ static void *thpool_thread(void *thpool) {
         pool->running_tasks--;
     }
     
+    /* This thread is done with the pool: detached threads cannot be joined, let wait_pool() know */
+    pool->alive--;
+    if (pool->flags & M_THPOOL_DETACHED) {
+        pthread_cond_broadcast(&(pool->notify));
+    }
     pthread_mutex_unlock(&(pool->lock));
     return NULL;
 }
@@ -98,8 +104,19 @@ static int wait_pool(m_thpool_t *pool, thpool_shutdown_t shutdown) {
 
     pool->shutdown = shutdown;
 
-    /* Wake up all worker threads and unlock mutex */
-    ret = pthread_cond_broadcast(&pool->notify) + pthread_mutex_unlock(&pool->lock);
+    /* Wake up all worker threads */
+    ret = pthread_cond_broadcast(&pool->notify);
+    if (pool->flags & M_THPOOL_DETACHED) {
+        /*
+         * Detached threads cannot be joined: wait until each of them has left.
+         * The last one unlocks the mutex right after its broadcast and does not touch
+         * the pool afterwards; once we own the mutex again the pool can be destroyed.
+         */
+        while (ret == 0 && pool->alive > 0) {
+            ret = pthread_cond_wait(&pool->notify, &pool->lock);
+        }
+    }
+    ret += pthread_mutex_unlock(&pool->lock);
     if (ret == 0) {
         if (!(pool->flags & M_THPOOL_DETACHED)) {
             /* Join all worker threads */
@@ -133,6 +150,7 @@ static int add_threads(m_thpool_t *pool, int num) {
         err = pthread_create(th, &tattr, thpool_thread, (void *) pool);
         if (err == 0) {
             m_list_insert(pool->threads, th);
+            pool->alive++;
         } else {
             memhook._free(th);
         }
